@@ -6,7 +6,6 @@ import (
 	"strings"
 
 	"github.com/robertkrimen/otto/ast"
-	"github.com/robertkrimen/otto/parser"
 	"github.com/robertkrimen/otto/token"
 	. "ottoh/lib"
 )
@@ -966,16 +965,14 @@ func fromExprExtra(e ast.Expression) *N {
 }
 
 func parseProgram(src string) (n *N, errText string) {
-	defer func() {
-		if r := recover(); r != nil {
-			n, errText = nil, fmt.Sprintf("PANIC %v", r)
-		}
-	}()
-	prog, err := parser.ParseFile(nil, "", src, 0)
-	if err != nil {
-		return nil, err.Error()
+	_, tree, e, mismatch := parseWays(src)
+	if mismatch != "" {
+		return historyBad(mismatch), "PARSE HISTORY: " + mismatch
 	}
-	return &N{Tag: tProg, Kids: fromStmts(prog.Body)}, ""
+	if tree == nil {
+		return nil, e
+	}
+	return tree, ""
 }
 
 // ---------------------------------------------------------------- program cases
@@ -998,7 +995,7 @@ func (g *gen) progCase(stmts []*N, bucket string, density, semiStyle int) {
 			shown = "the generating tree"
 		}
 	}
-	g.env.Add(fmt.Sprintf("CProg (%s) %s", want.coq(), obs),
+	g.add(fmt.Sprintf("CProg (%s) %s", want.coq(), obs),
 		fmt.Sprintf("program %q -> %s ; generating tree %s", src, shown, want.coq()), bucket, len(stmts) >= 2 || depth(want) >= 4)
 }
 
@@ -1017,7 +1014,7 @@ func (g *gen) pinCase(class int, src string, want, pinned *N) {
 			shown = "the tree ES5 assigns"
 		}
 	}
-	g.env.Add(fmt.Sprintf("CPin %d (%s) %s %s", class, want.coq(), pin, obs),
+	g.add(fmt.Sprintf("CPin %d (%s) %s %s", class, want.coq(), pin, obs),
 		fmt.Sprintf("pinned %q -> %s ; ES5 tree %s", src, shown, want.coq()), "pinned", true)
 }
 
@@ -1033,6 +1030,6 @@ func (g *gen) regressCase(src string, want *N) {
 			shown = "the generating tree"
 		}
 	}
-	g.env.Add(fmt.Sprintf("CProg (%s) %s", want.coq(), obs),
+	g.add(fmt.Sprintf("CProg (%s) %s", want.coq(), obs),
 		fmt.Sprintf("regression %q -> %s ; ES5 tree %s", src, shown, want.coq()), "regression-fixed", true)
 }
